@@ -26,17 +26,18 @@ SymOf(z) == {[kind |-> "sym", z |-> z, v |-> v] : v \in 1..4}
 PadOf(z) == {[kind |-> "pad", z |-> z, v |-> v, a |-> a, b |-> b] : v \in {1, 3}, a \in 1..3, b \in 1..3}
 NumOf(z) == {[kind |-> "num", z |-> z, v |-> v] : v \in 1..4}
 LabelOf(z) == {[kind |-> "label", z |-> z, v |-> v, a |-> a, b |-> b] : v \in 1..4, a \in DOMAIN DigitRuns, b \in DOMAIN Suffixes}
+BadLongOf(z) == {[kind |-> "badlong", z |-> z, v |-> v, a |-> a] : v \in {1, 2, 3}, a \in DOMAIN LongTails}
 BadOf(c) == {[kind |-> "bad", c |-> c, v |-> v, a |-> a, b |-> b] : v \in {1, 2, 3}, a \in {0, 1, 2}, b \in {1, 2, 3}}
 Keys == NumZ \cup {1000 + 27 * c[1] + c[2] : c \in {x \in BadCodes : (x[1] * 27 + x[2]) % BadStride = 0}}
 SpOfKey(k) == IF k >= 1000 THEN BadOf(<<(k - 1000) \div 27, (k - 1000) % 27>>)
-              ELSE IF k \in ElementZ THEN SymOf(k) \cup PadOf(k) \cup NumOf(k) \cup LabelOf(k) ELSE NumOf(k)
+              ELSE IF k \in ElementZ THEN SymOf(k) \cup PadOf(k) \cup NumOf(k) \cup LabelOf(k) \cup BadLongOf(k) ELSE NumOf(k)
 SymSp == UNION {SymOf(z) : z \in ElementZ}
 LabelCore == UNION {{[kind |-> "label", z |-> z, v |-> v, a |-> 1, b |-> b] : v \in 1..4, b \in {1, 2}} : z \in ElementZ}
 
 Line(s) ==
   LET z == IF s.kind = "bad" THEN 0 ELSE s.z
       c == IF s.kind = "bad" THEN s.c ELSE <<0, 0>>
-      a == IF s.kind \in {"pad", "label", "bad"} THEN s.a ELSE 0
+      a == IF s.kind \in {"pad", "label", "bad", "badlong"} THEN s.a ELSE 0
       b == IF s.kind \in {"pad", "label", "bad"} THEN s.b ELSE 0
   IN "S|" \o s.kind \o "|" \o ToString(z) \o "|" \o ToString(c[1]) \o "|" \o ToString(c[2]) \o "|" \o ToString(s.v)
         \o "|" \o ToString(a) \o "|" \o ToString(b) \o "|" \o SpellingText(s)
@@ -58,7 +59,7 @@ TableDistinct == (sp = NoSp /\ blk = 0 /\ key = -1) =>
 Unambiguous == (sp # NoSp /\ (sp.kind = "sym" \/ (sp.kind = "label" /\ sp.a = 1 /\ sp.b \in {1, 2}))) =>
   \A t \in SymSp \cup LabelCore :
      SpellingText(t) = SpellingText(sp) => Lookup(t) = Lookup(sp)
-BadIsNotGood == (sp # NoSp /\ sp.kind = "bad" /\ sp.a = 0) => \A t \in SymSp : SpellingText(t) # SpellingText(sp)
+BadIsNotGood == (sp # NoSp /\ ((sp.kind = "bad" /\ sp.a = 0) \/ sp.kind = "badlong")) => \A t \in SymSp : SpellingText(t) # SpellingText(sp)
 OrderTotal == (sp = NoSp /\ blk = 1 /\ key = -1) =>
   /\ \A a \in ElementZ : ~Less(a, a) /\ (a # 6 => Less(6, a))
   /\ \A a \in ElementZ : \A b \in ElementZ : a # b => (Less(a, b) # Less(b, a))
